@@ -98,13 +98,13 @@ func forEachCorpusText(c *core.Ctx, opt corpusOpt, f func(family, text string) b
 	}
 	// literals
 	for _, l := range corpusLiterals {
-		for _, ctx := range []string{"%s", "a = %s", "[%s, %s]", "f(%s)", "{%s:%s}", "-%s", "%s + %s"} {
+		for _, ctx := range []string{"%s", "a = %s", "[%s, %s]", "f(%s)", "{%s:%s}", "-%s", "%s + %s", "(%s).k", "(%s)[0]", "(%s)(1)"} {
 			if !emit("lit", strings.ReplaceAll(ctx, "%s", l)) {
 				return false, bounds
 			}
 		}
 	}
-	bounds = append(bounds, fmt.Sprintf("%d literal spellings x 7 contexts", len(corpusLiterals)))
+	bounds = append(bounds, fmt.Sprintf("%d literal spellings x 10 contexts", len(corpusLiterals)))
 	// statement adjacency: every ordered pair and triple of statement kinds, with each separator, top level and in a function body
 	for _, sep := range []string{"\n", "; ", " "} {
 		for _, a := range adjStmts {
@@ -187,7 +187,8 @@ func forEachCorpusText(c *core.Ctx, opt corpusOpt, f func(family, text string) b
 		emit("cmt", t)
 	}
 	// comments as first / last / only statement of a block, followed by another statement
-	for _, blk := range []string{"func f() { %s }", "if a { %s }", "for a { %s }", "x = func() { %s }", "if a { 1 } else { %s }", "f(func() { %s })", "x => { %s }"} {
+	for _, blk := range []string{"func f() { %s }", "if a { %s }", "for a { %s }", "x = func() { %s }", "if a { 1 } else { %s }", "f(func() { %s })", "x => { %s }",
+		"if a { %s } else { y }", "if a { %s } else if b { y } else { z }", "if a { 1 } else if b { %s } else { z }", "for a { %s }; for b { y }", "func f() { if a { %s } else { y } }"} {
 		for _, in := range []string{"/* c */", "1 /* c */", "// c\n", "1 // c\n", "/* c */ 1", "/* c */\n1", "1\n/* c */", "/* c\n d */", "/* a */ /* b */", "// a\n// b\n"} {
 			for _, after := range []string{"", "\ng()", " g()", "\n// d\ng()", " /* d */ g()", "\n/* d */\ng()"} {
 				emit("cmt", strings.Replace(blk, "%s", in, 1)+after)
